@@ -77,6 +77,7 @@ type Event struct {
 	Callee string
 	Args   []*Term
 	Addrs  []*Term // address terms of pointer/slice arguments (nil for scalars)
+	Lens   []int   // known length of each slice argument on this path (-1: unknown / not a slice)
 	Pos    token.Pos
 	Result *Term
 	Block  *ssa.BasicBlock
@@ -101,6 +102,15 @@ type Path struct {
 	HashOpen []string         // hash objects with a non-empty transcript at exit
 	ExitPos  token.Pos
 	Unrec    []string // constructs the engine could not model on this path
+	Bounds   []BoundOb // constant-index / constant-bound accesses to slices, with the length known on this path
+}
+
+// BoundOb is one bounds obligation: an access needs Need elements, the path knows Have (-1: nothing known).
+type BoundOb struct {
+	What string
+	Need int
+	Have int
+	Pos  token.Pos
 }
 
 // Valuation returns atom key -> value for the non-loop atoms.
@@ -130,6 +140,8 @@ type Model struct {
 	NoInline bool
 	// ResultLen gives the known length of the slice returned by a callee (by Name).
 	ResultLen map[string]int
+	// TermLen gives lengths of opaque slice terms established outside the analysed region (e.g. by an earlier loop).
+	TermLen map[string]int
 	// MaxPaths bounds path enumeration.
 	MaxPaths int
 }
@@ -149,6 +161,7 @@ type interp struct {
 	visits  map[*ssa.BasicBlock]int
 	hashes  []*Obj
 	depth   int
+	lenFact map[string]int // lengths of opaque slice terms established by decided guards on this path
 	start   *ssa.BasicBlock
 	stopAt  func(b *ssa.BasicBlock) bool
 	curBlk  *ssa.BasicBlock
@@ -874,6 +887,14 @@ func (it *interp) refine(atom *Term, d bool) {
 			o.N = n
 		}
 	}
+	if it.lenFact == nil {
+		it.lenFact = map[string]int{}
+	}
+	it.lenFact[a.Args[0].String()] = n
+}
+
+func (it *interp) bound(what string, need, have int, pos token.Pos) {
+	it.path.Bounds = append(it.path.Bounds, BoundOb{What: what, Need: need, Have: have, Pos: pos})
 }
 
 func binName(op token.Token) string {
@@ -1186,6 +1207,13 @@ func (it *interp) indexAddr(base val, idx *Term, elemT types.Type) val {
 		if !isConst || b.lo == -2 {
 			return ptr{o: b.o, idx: -2, idxT: T("add", idx, b.loTerm())}
 		}
+		if b.o.Param >= 0 || b.o.N < 0 {
+			have := b.o.N
+			if b.hi >= 0 {
+				have = b.hi
+			}
+			it.bound("index "+b.o.nameTerm().String(), b.lo+i+1, have, token.NoPos)
+		}
 		if b.o.Flat {
 			return ptr{o: b.o, idx: b.lo + i}
 		}
@@ -1302,6 +1330,27 @@ func (it *interp) slice(x *ssa.Slice) val {
 		if hi == nil && (lo == nil || lo.Op == "#0") {
 			return b
 		}
+		{
+			need := -1
+			if hi != nil {
+				if n, ok := intOf(hi); ok {
+					need = n
+				}
+			} else if lo != nil {
+				if n, ok := intOf(lo); ok {
+					need = n
+				}
+			}
+			if need >= 0 {
+				have := -1
+				if n, ok := it.lenFact[b.t.String()]; ok {
+					have = n
+				} else if n, ok := it.m.TermLen[b.t.String()]; ok {
+					have = n
+				}
+				it.bound("slice "+b.t.String(), need, have, x.Pos())
+			}
+		}
 		l, h := lo, hi
 		if l == nil {
 			l = num(0)
@@ -1347,6 +1396,19 @@ func (it *interp) slice(x *ssa.Slice) val {
 	nhi := curHi
 	if h >= 0 {
 		nhi = off + h
+	}
+	if o.Param >= 0 || o.N < 0 {
+		need := nlo
+		if h >= 0 {
+			need = off + h
+		}
+		have := o.N
+		if curHi >= 0 {
+			have = curHi
+		}
+		if need > 0 {
+			it.bound("slice "+o.nameTerm().String(), need, have, x.Pos())
+		}
 	}
 	return slc{o: o, lo: nlo, hi: nhi}
 }
